@@ -58,20 +58,64 @@ def with_decls(xml: str, decls: str) -> str:
     return xml[:m.end()] + decls + xml[m.end():]
 
 
+ENC_MODES = ["ascii-refs", "utf8-raw", "utf8-bom", "utf16-bom", "latin1", "cp1252"]
+_REF = re.compile(r"&#(\d+);")
+
+
+def encode_part(xml: str, mode: str) -> bytes:
+    """One XML part (as printed by Coq: pure ASCII, every non-ASCII character a numeric reference) in one of
+    the encodings an XML part may legally use.  Characters the target encoding can carry are written raw (so
+    that the declared encoding / BOM really matters), everything else stays a character reference.
+    References to code points < 0xA1 (markup characters, controls, NBSP/NEL whitespace) are always kept."""
+    def raw(codec):
+        def f(m):
+            n = int(m.group(1))
+            if n < 0xA1:
+                return m.group(0)
+            try:
+                chr(n).encode(codec)
+            except UnicodeEncodeError:
+                return m.group(0)
+            return chr(n)
+        return f
+    if mode == "ascii-refs":
+        return ('<?xml version="1.0" encoding="UTF-8" standalone="yes"?>' + xml).encode("ascii")
+    if mode == "utf8-raw":
+        return ('<?xml version="1.0" encoding="UTF-8"?>' + _REF.sub(raw("utf-8"), xml)).encode("utf-8")
+    if mode == "utf8-bom":
+        return b"\xef\xbb\xbf" + ('<?xml version="1.0"?>' + _REF.sub(raw("utf-8"), xml)).encode("utf-8")
+    if mode == "utf16-bom":
+        return ('<?xml version="1.0" encoding="UTF-16"?>' + _REF.sub(raw("utf-16"), xml)).encode("utf-16")
+    if mode == "latin1":
+        return ('<?xml version="1.0" encoding="ISO-8859-1"?>' + _REF.sub(raw("latin-1"), xml)).encode("latin-1")
+    if mode == "cp1252":
+        return ('<?xml version="1.0" encoding="windows-1252"?>' + _REF.sub(raw("cp1252"), xml)).encode("cp1252")
+    raise ValueError(mode)
+
+
+def pick_encoding(rng) -> str:
+    return rng.choice(["ascii-refs", "ascii-refs", "utf8-raw", "utf8-raw", "utf8-bom", "utf16-bom", "latin1", "latin1", "cp1252"])
+
+
 def nstr(l) -> str:
     return "".join(chr(c) for c in l)
 
 
 # ----------------------------------------------------------------------------- document generator
 class DocGen:
-    def __init__(self, rng, allowed: set[int], size: int):
+    LATIN = [c for c in range(0xC0, 0x100) if c not in (0xD7, 0xF7)] + [0xA9, 0xB5, 0xE9, 0xFC]
+
+    def __init__(self, rng, allowed: set[int], size: int, latin: bool = False):
         self.rng, self.allowed, self.size = rng, allowed, size
         self.ids = {k: 0 for k in range(6)}
         self.has_tab = False
+        self.latin = latin       # visible leaves over Latin-1 letters (single-byte encodings can carry them raw)
 
     def leaf(self, cls: int) -> str:
         n = self.rng.choice([1, 1, 2, 3])
         cs = []
+        if cls == 0 and self.latin:
+            return "[" + ";".join(str(self.rng.choice(self.LATIN)) for _ in range(n + 1)) + "]"
         for _ in range(n):
             self.ids[cls] += 1
             cs.append(BASE + 1024 * cls + (self.ids[cls] % 1000))
@@ -151,7 +195,7 @@ def gen_docs(ctx, n: int) -> list[str]:
             allowed = {rng.choice(kinds)}
         else:
             allowed = set(rng.sample(kinds, rng.randint(2, 4)))
-        docs.append(DocGen(rng, allowed, rng.choice([2, 4, 6])).doc())
+        docs.append(DocGen(rng, allowed, rng.choice([2, 4, 6]), latin=rng.random() < 0.4).doc())
     return docs
 
 
@@ -228,17 +272,18 @@ DOCRELS = ('<?xml version="1.0" encoding="UTF-8"?><Relationships xmlns="http://s
 XMLDECL = '<?xml version="1.0" encoding="UTF-8" standalone="yes"?>'
 
 
-def package(document: str, comments: str | None = None, header: str | None = None, footer: str | None = None) -> bytes:
+def package(document: str, comments: str | None = None, header: str | None = None, footer: str | None = None,
+            enc: str = "ascii-refs") -> bytes:
     b = io.BytesIO()
     with zipfile.ZipFile(b, "w", zipfile.ZIP_DEFLATED) as z:
         z.writestr("[Content_Types].xml", CT)
         z.writestr("_rels/.rels", RELS)
-        z.writestr("word/document.xml", XMLDECL + document)
+        z.writestr("word/document.xml", encode_part(document, enc))
         if comments is not None:
             z.writestr("word/_rels/document.xml.rels", DOCRELS)
-            z.writestr("word/comments.xml", XMLDECL + comments)
-            z.writestr("word/header1.xml", XMLDECL + (header or ""))
-            z.writestr("word/footer1.xml", XMLDECL + (footer or ""))
+            z.writestr("word/comments.xml", encode_part(comments, enc))
+            z.writestr("word/header1.xml", encode_part(header or "", enc))
+            z.writestr("word/footer1.xml", encode_part(footer or "", enc))
     return b.getvalue()
 
 
@@ -271,13 +316,14 @@ def gen_tables(ctx):
 
 
 # ----------------------------------------------------------------------------- pass 1 (Coq renders)
-def render_pass(ctx, name: str, docs: list[str], shard: int = 25):
-    chunks = [docs[i:i + shard] for i in range(0, len(docs), shard)]
+def render_pass(ctx, name: str, docs: list[str], masks: list[tuple[str, str]], shard: int = 25):
+    chunks = [(docs[i:i + shard], masks[i:i + shard]) for i in range(0, len(docs), shard)]
 
     def run(kc):
-        k, chunk = kc
+        k, (chunk, mchunk) = kc
         body = (PRE + "From S2T Require Import C02.Witness.\n"
                 "Definition cases : list doc := [\n" + ";\n".join(chunk) + "\n].\n"
+                "Definition masks : list (list N * list N) := [\n" + ";\n".join(f"({a}, {b})" for a, b in mchunk) + "\n].\n"
                 "Eval vm_compute in (map (fun d => to_string (ser (r_document d))) cases).\n"
                 "Eval vm_compute in (map (fun d => to_string (ser (part_comments d))) cases).\n"
                 "Eval vm_compute in (map (fun d => to_string (ser (part_header d))) cases).\n"
@@ -286,22 +332,26 @@ def render_pass(ctx, name: str, docs: list[str], shard: int = 25):
                 "Eval vm_compute in (map segments cases).\n"
                 "Eval vm_compute in (map (fun d => List.concat (excluded d)) cases).\n"
                 "Eval vm_compute in (map (fun d => List.concat (visible d)) cases).\n"
-                "Eval vm_compute in (to_string xmlns_decls).\n")
+                "Eval vm_compute in (to_string xmlns_decls).\n"
+                "Eval vm_compute in (map (fun md => to_string (ser_w (fst (fst md)) (snd (fst md)) (snd md))) (combine masks cases)).\n")
         ok, out = ctx.coq_eval(f"{name}_{k}", body, timeout=600)
         if not ok:
             return None, out
         r = coq_results(out)
-        if len(r) != 9:
+        if len(r) != 10:
             return None, out
         decls = parse_strings(r[8])[0]
         xs = [[with_decls(x, decls) for x in parse_strings(r[i])] for i in range(4)]
+        xw = [with_decls(x, decls) if x else "" for x in parse_strings(r[9])]
+        if len(xw) != len(chunk):
+            return None, f"shard {k}: wrapped variants {len(xw)} != {len(chunk)}"
         flags, segs, excl, vis = (parse_nums(r[i]) for i in range(4, 8))
         n = len(chunk)
         if not all(len(v) == n for v in xs + [flags, segs, excl, vis]):
             return None, f"shard {k}: lengths {[len(v) for v in xs + [flags, segs, excl, vis]]} != {n}\n" + out[-800:]
         rows = []
         for i in range(n):
-            rows.append({"document": xs[0][i], "comments": xs[1][i], "header": xs[2][i], "footer": xs[3][i],
+            rows.append({"document": xs[0][i], "document_w": xw[i], "comments": xs[1][i], "header": xs[2][i], "footer": xs[3][i],
                          "supported": flags[i][0] == 1, "kinds": sorted(set(flags[i][1:])),
                          "segments": [nstr(w) for w in segs[i]], "excluded": nstr(excl[i]), "visible": nstr(vis[i])})
         return rows, ""
@@ -398,8 +448,8 @@ def run(ctx):
     dx = gen_tables(ctx)
 
     # ---- proofs
-    ctx.prove("C02/Props.v", ["C02/Proofs.vo", "C02/Witness.vo"], expected=[
-        "C02_docx_separated", "C02_docx_fidelity", "C02_docx_no_excluded", "C02_docx_excluded_absent",
+    ctx.prove("C02/Props.v", ["C02/Proofs.vo", "C02/ProofsW.vo", "C02/Witness.vo"], expected=[
+        "C02_docx_separated", "C02_docx_separated_wrapped", "C02_docx_fidelity", "C02_docx_no_excluded", "C02_docx_excluded_absent",
         "C02_docx_only_documented_decoration", "C02_docx_supported_nonvacuous",
         "C02_docx_nested_table_refuted", "C02_docx_textbox_refuted",
         "C02_docx_textbox_in_cell_refuted", "C02_docx_vml_textbox_refuted", "C02_docx_moved_from_refuted",
@@ -414,6 +464,17 @@ def run(ctx):
     ctx.extra["proved_walkers"].append("shared ODF helper element_text for ods/odp/odg/odf paragraph text (C02/PropsOdf.v) + ODS/ODP end-to-end oracle")
     ctx.extra["correspondence_only_or_elsewhere"] = ["PPTX paragraph text, XLSX/XLS/ODS/ODP/ODG: C03/C13", "HTML/MHTML/EPUB: C17",
                                                      "PDF/DOC/PPT/MSG/EML/plain text: not modelled here"]
+    ctx.extra["sampled_dimensions"] = {
+        "part_encoding": "every generated docx/odt/ods/odp/pptx content part is written in one of " + ", ".join(ENC_MODES) +
+                         " (sampled per document; characters the encoding can carry are written raw, the rest as references); "
+                         "visible leaves are drawn from CJK code points or (40%) Latin-1 letters; other legal encodings "
+                         "(UTF-16 without BOM, UTF-32, other single-byte code pages) and rels/content-types parts are not sampled",
+        "docx_row_cell_wrappers": "every document with a table is also rendered with random masks (length 0-3, values none/w:sdt/"
+                                  "w:customXml) over the rows of every table and the cells of every row; theorem "
+                                  "C02_docx_separated_wrapped covers all masks",
+        "odp_notes_and_groups": "notes page absent / frame with presentation:class=notes / frame without / both; text-box frames "
+                                "inside draw:g (nesting 1-2) in 20% of the frames; PPTX notesSlide parts are not generated",
+    }
     docx_part(ctx, dx)
 
     import os
@@ -433,62 +494,101 @@ def run(ctx):
             ctx.obligation(f"part:{modname} ran to completion", False, traceback.format_exc()[-1500:])
 
 
+def docx_oracle(ctx, term, r, out, xml, variant, enc):
+    """The property on the implementation's output for one rendering of one document."""
+    words = out.split()
+    bad_sep = words != r["segments"]
+    leaked = sorted(set(out) & set(r["excluded"]))
+    vis = set(r["visible"])
+    invented = sorted(c for c in set(out) if not c.isspace() and c not in vis and c not in r["excluded"])
+    toks = "".join(words)
+    bad_fid = toks != r["visible"] and not leaked
+    if not (bad_sep or leaked or invented):
+        return
+    what = []
+    if leaked:
+        what.append(f"excluded text appears ({len(leaked)} chars)")
+    if bad_fid:
+        if len(toks) == len(r["visible"]) and sorted(toks) == sorted(r["visible"]):
+            what.append("visible tokens reordered (same tokens, not in source order)")
+        else:
+            what.append("visible tokens lost/duplicated/reordered: expected "
+                        f"{len(r['visible'])} token chars, got {len(toks)}")
+    elif bad_sep:
+        what.append(f"tokens merged across a boundary: expected {len(r['segments'])} words, got {len(words)}")
+    if invented:
+        what.append(f"text that is not in the source: {invented[:5]}")
+    rep = {"format": "docx", "doc": term, "document_xml": xml, "expected_words": r["segments"], "encoding": enc,
+           "got_full_text": out, "excluded_chars": r["excluded"], "kinds": [KIND[k] for k in r["kinds"]], "rendering": variant}
+    # does the failure depend on the encoding of the parts?  (same document, character references only)
+    if enc not in ("ascii-refs",):
+        out0, _, err0 = impl_full_text(package(xml, r["comments"], r["header"], r["footer"], enc="ascii-refs"))
+        if err0 is None and out0 != out:
+            ctx.finding("docx:part-encoding:" + enc, f"DOCX get_full_text() depends on the encoding of the XML parts ({enc} vs "
+                        "character references): " + "; ".join(what), dict(rep, got_with_character_references=out0))
+            return
+    suffix = " (rows/cells wrapped in w:sdt / w:customXml)" if variant == "wrapped" else ""
+    if r["supported"]:
+        if not leaked and not invented and not bad_fid and ("ITab" in term or "IBreak" in term or term in ("rich_doc", "d_tab")):
+            key = "docx:tab-or-break-merges-tokens"
+        elif not leaked and not invented and bad_fid and variant == "plain" and ("BSdt" in term or term in ("rich_doc", "d_body_sdt")):
+            key = "docx:block-level-content-control-dropped"
+        elif variant == "wrapped":
+            key = "docx:row-or-cell-level-content-control"
+        else:
+            key = "docx:supported-document"
+        ctx.finding(key, "DOCX get_full_text(): " + "; ".join(what) + " (document inside the proved fragment)" + suffix, rep)
+    elif len(r["kinds"]) == 1:
+        ctx.finding("docx:" + KIND[r["kinds"][0]], "DOCX get_full_text(): " + "; ".join(what) +
+                    f" [construct: {KIND[r['kinds'][0]]}]" + suffix, rep)
+
+
 def docx_part(ctx, dx):
     pre2 = PRE + "From S2T Require Import Gen.C02Tables C02.Witness.\n"
     # ---- structured stream: abstract documents
     docs = gen_docs(ctx, ctx.n(240, 4000))
-    rows, log = render_pass(ctx, "docx_render", docs)
+    rng = ctx.rng
+    mask = lambda: "[" + ";".join(str(rng.choice([0, 0, 1, 1, 2])) for _ in range(rng.randint(0, 3))) + "]%N"
+    masks = [(mask(), mask()) for _ in docs]
+    rows, log = render_pass(ctx, "docx_render", docs, masks)
     if rows is None:
         ctx.obligation("correspondence:docx model(render d) == read_docx(package(render d)).get_full_text()", False,
                        "Coq render pass failed: " + log)
         return
-    cases, info = [], []
-    for term, r in zip(docs, rows):
-        pkg = package(r["document"], r["comments"], r["header"], r["footer"])
-        out, content, err = impl_full_text(pkg)
+    cases, info, wcases, winfo = [], [], [], []
+    for term, mk, r in zip(docs, masks, rows):
         ntok = len(r["visible"])
         kind = "supported" if r["supported"] else "+".join(KIND[k] for k in r["kinds"])
-        ctx.case(("docx", term), ntok >= 3, "docx:" + (kind if len(r["kinds"]) <= 1 else "mixed-unsupported"))
-        if err is not None:
-            ctx.finding("docx:raises", f"read_docx raised {err} on a generated document",
-                        {"doc": term, "document_xml": r["document"], "error": err})
-            continue
-        # the excluded texts were really in the package and reached the extractor (non-trivial exclusion)
-        cases.append(f"({term}, {coq_str(out)})")
-        info.append((term, r, out))
-        # ---- property oracle on the implementation's output
-        words = out.split()
-        bad_sep = words != r["segments"]
-        leaked = sorted(set(out) & set(r["excluded"]))
-        vis = set(r["visible"])
-        invented = sorted(c for c in set(out) if not c.isspace() and c not in vis and c not in r["excluded"])
-        toks = "".join(words)
-        bad_fid = toks != r["visible"] and not leaked
-        if not (bad_sep or leaked or invented):
-            continue
-        what = []
-        if leaked:
-            what.append(f"excluded text appears ({len(leaked)} chars)")
-        if bad_fid:
-            what.append("visible tokens lost/duplicated/reordered: expected "
-                        f"{len(r['visible'])} token chars, got {len(toks)}")
-        elif bad_sep:
-            what.append(f"tokens merged across a boundary: expected {len(r['segments'])} words, got {len(words)}")
-        if invented:
-            what.append(f"text that is not in the source: {invented[:5]}")
-        rep = {"format": "docx", "doc": term, "document_xml": r["document"], "expected_words": r["segments"],
-               "got_full_text": out, "excluded_chars": r["excluded"], "kinds": [KIND[k] for k in r["kinds"]]}
-        if r["supported"]:
-            if not leaked and not invented and not bad_fid and ("ITab" in term or "IBreak" in term or term in ("rich_doc", "d_tab")):
-                key = "docx:tab-or-break-merges-tokens"
-            elif not leaked and not invented and bad_fid and ("BSdt" in term or term in ("rich_doc", "d_body_sdt")):
-                key = "docx:block-level-content-control-dropped"
+        for variant in ("plain", "wrapped"):
+            xml = r["document"] if variant == "plain" else r["document_w"]
+            if not xml:
+                continue            # no table: the wrapped variant is the plain one
+            enc = pick_encoding(rng)
+            pkg = package(xml, r["comments"], r["header"], r["footer"], enc=enc)
+            out, content, err = impl_full_text(pkg)
+            ctx.case(("docx", term, variant, mk if variant == "wrapped" else None, enc), ntok >= 3,
+                     "docx:" + (kind if len(r["kinds"]) <= 1 else "mixed-unsupported") + ("+row/cell-wrappers" if variant == "wrapped" else ""))
+            ctx.count("docx-encoding:" + enc)
+            if err is not None:
+                ctx.finding("docx:raises" + ("" if enc in ("ascii-refs", "utf8-raw") else ":" + enc),
+                            f"read_docx raised {err} on a generated document (parts encoded as {enc})",
+                            {"format": "docx", "doc": term, "document_xml": xml, "encoding": enc, "error": err})
+                continue
+            if variant == "plain":
+                cases.append(f"({term}, {coq_str(out)})")
+                info.append((term, r, out))
             else:
-                key = "docx:supported-document"
-            ctx.finding(key, "DOCX get_full_text(): " + "; ".join(what) + " (document inside the proved fragment)", rep)
-        elif len(r["kinds"]) == 1:
-            ctx.finding("docx:" + KIND[r["kinds"][0]], "DOCX get_full_text(): " + "; ".join(what) +
-                        f" [construct: {KIND[r['kinds'][0]]}]", rep)
+                wcases.append(f"({mk[0]}, {mk[1]}, {term}, {coq_str(out)})")
+                winfo.append((term, mk, xml, out))
+            docx_oracle(ctx, term, r, out, xml, variant, enc)
+    okw, failw, logw = coq_eval_shards(ctx, "docx_wcorr", pre2, "(corr_doc_w py_ws)", wcases, shard=100,
+                                       ty="list N * list N * doc * str")
+    ctx.traces += len(wcases)
+    ctx.disagreements += len(failw)
+    ctx.obligation("correspondence:docx model(render_with_row/cell_wrappers d) == read_docx(...).get_full_text()",
+                   okw and not failw,
+                   (f"{len(failw)} disagreements; first: masks={winfo[failw[0]][1]} doc={winfo[failw[0]][0][:300]} impl={winfo[failw[0]][3]!r} "
+                    if failw else "") + logw[:800])
     ok, failing, log = coq_eval_shards(ctx, "docx_corr", pre2, "(corr_doc py_ws)", cases, shard=100, ty="doc * str")
     ctx.traces += len(cases)
     ctx.disagreements += len(failing)
@@ -572,7 +672,7 @@ def replay(ctx, rp):
     if "document_xml" not in rp or "expected_words" not in rp:
         return run(ctx)
     ctx.case(("replay", rp["document_xml"]), True, "replay")
-    out, _, err = impl_full_text(package(rp["document_xml"]))
+    out, _, err = impl_full_text(package(rp["document_xml"], enc=rp.get("encoding", "ascii-refs")))
     if err is not None:
         ctx.finding(key, f"read_docx raised {err}", dict(rp, error=err))
         return
